@@ -6,6 +6,7 @@ package main
 import (
 	"fmt"
 	"go/types"
+	"math/big"
 	"strings"
 )
 
@@ -151,6 +152,7 @@ const (
 func installEnvStubs(e *Engine) {
 	S := e.stubs
 	e.handles = map[int]*fileHandle{}
+	installLibStubs(e)
 	tg := "(*github.com/glowlabs-org/threadgroup.ThreadGroup)."
 	S[tg+"Launch"] = func(e *Engine, st *State, c *callInfo, a []Value) Value {
 		if fv, ok := a[1].(*FuncV); ok {
@@ -163,11 +165,20 @@ func installEnvStubs(e *Engine) {
 		return nilIface()
 	}
 	S[tg+"Sleep"] = func(e *Engine, st *State, c *callInfo, a []Value) Value {
+		if b, ok := st.ghost["tg.budget"]; ok {
+			bt := b.(*Term)
+			more := Slt(BVu(0, 64), bt)
+			st.ghost["tg.budget"] = Ite(more, Sub(bt, BVu(1, 64)), bt)
+			return more
+		}
 		t := FreshBool("tg.sleep")
 		t.Input = true
 		return t
 	}
 	S[tg+"IsStopped"] = func(e *Engine, st *State, c *callInfo, a []Value) Value {
+		if _, ok := st.ghost["tg.budget"]; ok {
+			return False()
+		}
 		t := FreshBool("tg.stopped")
 		t.Input = true
 		return t
@@ -344,6 +355,133 @@ func installEnvStubs(e *Engine) {
 	S["(*os.File).Close"] = func(e *Engine, st *State, c *callInfo, a []Value) Value { return nilIface() }
 	S["(*os.File).Stat"] = func(e *Engine, st *State, c *callInfo, a []Value) Value {
 		return &TupleV{E: []Value{nilIface(), nilIface()}}
+	}
+}
+
+// installLibStubs: strconv / csv / ghost registry / tokens
+func installLibStubs(e *Engine) {
+	S := e.stubs
+	S["verif:verifGhostSet"] = func(e *Engine, st *State, c *callInfo, a []Value) Value {
+		iv := a[1].(*IfaceV)
+		st.ghost["user:"+mustConcreteStr(a[0], "verifGhostSet key")] = iv.A[0].V
+		return nil
+	}
+	S["verif:verifTgBudget"] = func(e *Engine, st *State, c *callInfo, a []Value) Value {
+		st.ghost["tg.budget"] = argTerm(a[0])
+		return nil
+	}
+	// tokens: strings whose strconv reading is declared by the harness
+	S["verif:verifIntToken"] = func(e *Engine, st *State, c *callInfo, a []Value) Value {
+		name := mustConcreteStr(a[0], "verifIntToken")
+		s := &StrV{B: make([]*Term, 2), Len: InputVar(name+".len", 64)}
+		for i := range s.B {
+			s.B[i] = Fresh(name+".b", 8)
+		}
+		st.assume(And(Ule(BVu(1, 64), s.Len), Ule(s.Len, BVu(2, 64))))
+		ok := InputBool(name + ".ok")
+		s.Tok = &tokInfo{IntOK: ok, IntVal: InputVar(name+".val", 64), FloatOK: FreshBool(name + ".fok"), FloatBits: Fresh(name+".fbits", 64)}
+		e.noteAssumption("numeric tokens: a field is an opaque non-empty string; strconv.ParseInt/ParseFloat return the declared value or an error (strconv's own text semantics are a contract, not encoded)")
+		return s
+	}
+	S["verif:verifFloatToken"] = func(e *Engine, st *State, c *callInfo, a []Value) Value {
+		name := mustConcreteStr(a[0], "verifFloatToken")
+		s := &StrV{B: make([]*Term, 2), Len: InputVar(name+".len", 64)}
+		for i := range s.B {
+			s.B[i] = Fresh(name+".b", 8)
+		}
+		st.assume(And(Ule(BVu(1, 64), s.Len), Ule(s.Len, BVu(2, 64))))
+		ok := InputBool(name + ".ok")
+		s.Tok = &tokInfo{FloatOK: ok, FloatBits: InputVar(name+".val", 64), IntOK: FreshBool(name + ".iok"), IntVal: Fresh(name+".ival", 64)}
+		e.noteAssumption("numeric tokens: a field is an opaque non-empty string; strconv.ParseInt/ParseFloat return the declared value or an error (strconv's own text semantics are a contract, not encoded)")
+		return s
+	}
+	parseInt := func(e *Engine, st *State, c *callInfo, a []Value) Value {
+		s := a[0].(*StrV)
+		var ok, val *Term
+		if s.Tok != nil {
+			ok, val = s.Tok.IntOK, s.Tok.IntVal
+		} else if cs, isC := s.concrete(); isC {
+			var n int64
+			_, err := fmt.Sscanf(cs, "%d", &n)
+			ok, val = Bool(err == nil && fmt.Sprint(n) == cs), BVi(n, 64)
+		} else {
+			ok, val = FreshBool("parseint.ok"), Fresh("parseint.val", 64)
+		}
+		bits := 64
+		if len(a) > 2 {
+			if b, isC := argTerm(a[2]).ConstInt(); isC && b > 0 {
+				bits = b
+			}
+		}
+		if bits < 64 {
+			if c.name == "strconv.ParseUint" {
+				ok = And(ok, Ult(val, BV(new(big.Int).Lsh(bigOne, uint(bits)), 64)))
+			} else {
+				lim := BV(new(big.Int).Lsh(bigOne, uint(bits-1)), 64)
+				ok = And(ok, Slt(val, lim), Sle(Neg(lim), val))
+			}
+		}
+		return &TupleV{E: []Value{Ite(ok, val, BVu(0, 64)), errIf(Not(ok), e.newError(st, "strconv: parse error").(*IfaceV))}}
+	}
+	S["strconv.ParseInt"] = parseInt
+	S["strconv.ParseUint"] = parseInt
+	S["strconv.ParseFloat"] = func(e *Engine, st *State, c *callInfo, a []Value) Value {
+		s := a[0].(*StrV)
+		var ok, val *Term
+		if s.Tok != nil {
+			ok, val = s.Tok.FloatOK, s.Tok.FloatBits
+		} else {
+			ok, val = FreshBool("parsefloat.ok"), Fresh("parsefloat.val", 64)
+		}
+		return &TupleV{E: []Value{Ite(ok, val, BVu(0, 64)), errIf(Not(ok), e.newError(st, "strconv: parse error").(*IfaceV))}}
+	}
+	S["strconv.Itoa"] = func(e *Engine, st *State, c *callInfo, a []Value) Value { return strConst("<itoa>") }
+	S["strconv.FormatFloat"] = func(e *Engine, st *State, c *callInfo, a []Value) Value { return strConst("<float>") }
+
+	// encoding/csv: records come from the ghost "csv" (a [][]string registered by the harness)
+	S["encoding/csv.NewReader"] = func(e *Engine, st *State, c *callInfo, a []Value) Value {
+		st.ghost["csv.pos"] = BVu(0, 64)
+		return singlePtr(e.alloc(st, &StructV{F: []Value{BVu(0, 64)}}))
+	}
+	S["(*encoding/csv.Reader).Read"] = func(e *Engine, st *State, c *callInfo, a []Value) Value {
+		recs, ok := st.ghost["user:csv"].(*SliceV)
+		if !ok || len(recs.A) != 1 {
+			panic(unsupported("csv.Reader.Read without registered records (verifGhostSet(\"csv\", [][]string))"))
+		}
+		al := recs.A[0]
+		n, isC := al.Len.ConstInt()
+		pos, posC := st.ghost["csv.pos"].(*Term).ConstInt()
+		if !isC || !posC {
+			panic(unsupported("csv stub needs a concrete number of records"))
+		}
+		e.noteAssumption("encoding/csv: Read returns the registered records in order, io.EOF after the last, and ErrFieldCount (with the record) when a record's field count differs from the first record's (FieldsPerRecord = 0); every record has >= 1 field; csv's tokenisation (quotes, CRLF) is a contract, not encoded")
+		nilRec := zeroValue(types.NewSlice(types.Typ[types.String]))
+		if pos >= n {
+			return &TupleV{E: []Value{nilRec, e.eofErr(st)}}
+		}
+		st.ghost["csv.pos"] = BVu(uint64(pos+1), 64)
+		rec := e.sliceGet(st, al, BVu(uint64(pos), 64)).(*SliceV)
+		first := e.sliceGet(st, al, BVu(0, 64)).(*SliceV)
+		same := Eq(rec.A[0].Len, first.A[0].Len)
+		return &TupleV{E: []Value{rec, errIf(Not(same), e.newError(st, "csv: wrong number of fields").(*IfaceV))}}
+	}
+	S["verif:verifFileHavoc"] = func(e *Engine, st *State, c *callInfo, a []Value) Value {
+		path := mustConcreteStr(a[0], "verifFileHavoc path")
+		name := mustConcreteStr(a[1], "verifFileHavoc name")
+		mx, _ := argTerm(a[2]).ConstInt()
+		arr := ArrVar(name, 8)
+		arr.Input = true
+		ln := InputVar(name+".len", 64)
+		st.assume(Ule(ln, BVu(uint64(mx), 64)))
+		varBounds[name+".len"] = mx
+		e.bounds["len(file "+name+")"] = fmt.Sprintf("0..%d bytes, arbitrary content", mx)
+		e.putFile(st, path, fileState{True(), ln, arr})
+		return nil
+	}
+	S["verif:verifFileAbsent"] = func(e *Engine, st *State, c *callInfo, a []Value) Value {
+		path := mustConcreteStr(a[0], "verifFileAbsent path")
+		e.putFile(st, path, fileState{False(), BVu(0, 64), ConstArr(8, BVu(0, 8))})
+		return nil
 	}
 }
 
